@@ -161,10 +161,13 @@ def attribute(G, t, c, glob_only: set, match_only: set, raw_results: list[str], 
             ids.add('KF-D17')
         elif (u + '/') in raw_results and not os.path.isdir(f):
             ids.add('KF-D17')                      # `f/**` -> `f/` for a regular file
-        elif any(comp.endswith('\n') for comp in u.split('/')):
-            ids.add('KF-D14')
         elif matchbase and empty_seg:
             ids.add('KF-G6')                       # MATCHBASE leaks into the per-part regexes
+        elif matchbase and any(comp.endswith('\n') for comp in u.split('/')):
+            # KF-G6 again: the leaked `**/` prefix ends in the divider `(?:^|$|/)+`, whose `$` stops before a
+            # final newline — `?` then takes the newline.  (Without MATCHBASE a name ending in a newline was
+            # D14 — `re.match` — which is repaired: unattributed.)
+            ids.add('KF-G6')
         elif os.path.islink(f) and not os.path.isdir(f) and ((('**' in text) and globstar) or matchbase):
             ids.add('KF-D7')
         elif linkdir(u) and mixed_stars:
@@ -188,8 +191,6 @@ def attribute(G, t, c, glob_only: set, match_only: set, raw_results: list[str], 
             ids.add('KF-D8')
         elif empty_last and (os.path.isdir(f) or (globstar and nstars >= 1)):
             ids.add('KF-G5')                       # a last segment that can match empty: `dir/*(a)` accepts `dir`
-        elif c.flags & G.NODIR and u.endswith('\\'):
-            ids.add('KF-D16')
         elif matchbase and star_last and any(k.startswith('.') for k in comps) and not c.flags & G.DOTGLOB:
             ids.add('KF-D6')
         elif has_linkdir and mixed_stars:
